@@ -113,7 +113,8 @@ fn main() {
             install_quiet_panic_hook();
             let uni: Vec<usize> = args.get(2).map(|s| s.split(',').filter_map(|x| x.parse().ok()).collect()).unwrap_or_default();
             let nvs: Vec<usize> = args.get(3).map(|s| s.split(',').filter_map(|x| x.parse().ok()).collect()).unwrap_or_default();
-            for r in columns::columns(&uni, &nvs) {
+            let batches: Vec<Vec<usize>> = args.get(4).map(|s| s.split(',').map(|b| b.split('+').filter_map(|x| x.parse().ok()).collect()).collect()).unwrap_or_default();
+            for r in columns::columns(&uni, &nvs, &batches) {
                 println!("{}", r);
             }
         }
